@@ -69,6 +69,11 @@ def call_fn_value(ex, st, f, argvals):
         if any(r.search(fv[1]) for r in ex.no_inline):
             yield st, ("call", fv[1], tuple(ex.canon(st, a) for a in argvals))
             return
+        adt = ex.facts.adts.get(fv[1])
+        if adt is not None and adt.get("kind") == "Struct":
+            # a tuple-struct constructor used as a function value, e.g. `.map(Wrapper)`
+            yield st, ("adt", fv[1], fv[1].rsplit("::", 1)[-1], tuple(argvals))
+            return
         cands = [g for g in (ex.facts.fns.get(fv[1]),) if g is not None]
         if cands:
             for s2, kind, val in ex.call_fn(cands[0], list(argvals), st, None):
@@ -108,7 +113,9 @@ def delegating_field(ex, adt_path):
 
 def step(ex, st, T):
     """yield (state, item or None, advanced iterator term)"""
-    T = _strip(ex.canon(st, T)) if T[0] != "citer" else T
+    if T[0] == "ref":
+        T = ex.load(st, T[1])
+    T = _strip(T)          # no canonicalisation here: closures inside the term keep their live `&mut` captures
     k = T[0]
     if k == "citer":
         items, pos = T[1], T[2]
@@ -116,6 +123,25 @@ def step(ex, st, T):
             yield st, items[pos], ("citer", items, pos + 1)
         else:
             yield st, None, T
+        return
+    if k == "cflat":
+        outer, f, sub = T[1], T[2], T[3]
+        if sub is not None:
+            for s2, it, sub2 in step(ex, st, sub):
+                if it is not None:
+                    yield s2, it, ("cflat", outer, f, sub2)
+                else:
+                    yield from step(ex, s2, ("cflat", outer, f, None))
+            return
+        for s2, it, outer2 in step(ex, st, outer):
+            if it is None:
+                yield s2, None, ("cflat", outer2, f, None)
+                continue
+            if f is None:
+                yield from step(ex, s2, ("cflat", outer2, f, ("call", "core::iter::IntoIterator::into_iter", (it,))))
+            else:
+                for s3, v in call_fn_value(ex, s2, f, [it]):
+                    yield from step(ex, s3, ("cflat", outer2, f, ("call", "core::iter::IntoIterator::into_iter", (v,))))
         return
     if k == "cenum":
         inner, n = T[1], T[2]
@@ -186,6 +212,12 @@ def step(ex, st, T):
             else:
                 for s3, v in call_fn_value(ex, s2, a[1], [it]):
                     yield s3, v, ("call", T[1], (inner2, a[1]))
+        return
+    if m == "flat_map" and len(a) == 2:
+        yield from step(ex, st, ("cflat", a[0], a[1], None))
+        return
+    if m == "flatten" and len(a) == 1:
+        yield from step(ex, st, ("cflat", a[0], None, None))
         return
     if m == "enumerate" and len(a) == 1:
         yield from step(ex, st, ("cenum", a[0], 0))
